@@ -403,6 +403,47 @@ EXTRA2 = {
 }
 for _k, _t in EXTRA2.items():
     CHECKS[_k]["text"] = CHECKS[_k]["text"] + _t
+# second round of the fifth session
+EXTRA3 = {
+ "C12": (" Extension (Smooth.v, Properties_C12_smooth.v, 19 theorems): nodal smoothing (the default of femmcli) - PostProcessor::getNodalD / "
+         "getPointD of electrostatics and heat flow completely (the walk around a node in both directions with its stops at material borders "
+         "and flagged neighbours, punt cases, plane fit), isSameMaterialAs of the two classes, FPProc::GetPointB and the inverse-distance "
+         "mean of GetNodalB: the smoothed field is the barycentric interpolation of three nodal values; the plane fit is EXACT on affine "
+         "potentials (so closed-form linear fields come back unchanged with smoothing on); the walk never leaves the material (induction "
+         "over its fuel, any arithmetic); what isSameMaterialAs decides; fall-backs return the element's own field. Stored nodal fields, "
+         "every point value and every walk bit-identical / identical with the real classes (h_smooth); affine potentials written into "
+         "solution files as independent oracle. Found and repaired: smoothed heat flux in exterior regions (3f295f3)."),
+ "C19": (" (3) The Newton loop of FSolver::StaticAxisymmetric (AsmMAxiNL.v, Properties_C19_nlaxi.v, 22 theorems): the same statements for the "
+         "axisymmetric solver (reduction to the linear system for LamType 0 outside the exterior region through the whole loop, Newton step, "
+         "fixed point, flux density of the update = r-weighted rms of the element, control logic literally the planar one); refuted for "
+         "laminations on edge (XNL-1's twin) and for tables in the exterior region (known finding XNLAXI-1, probed on every run); per pass "
+         "bit-identical (h_fsolver_axi_nl, 37 000 values per quick run)."),
+ "C05": (" Extension (AsmMPrev.v, Properties_C05_prev.v, 18 theorems; run with C11): static problems that build on a previous solution "
+         "(incremental and frozen permeability): the incremental element matrix is the quadratic form of the differential reluctivity tensor "
+         "rotated to the previous flux density (symmetric, positive semi-definite for monotone curves), muinc = 1/(mu0 dH/dB), murel = "
+         "1/(mu0 H/B), frozen = the Newton loop's secant matrix, reduction to the ordinary linear element for zero previous field / linear "
+         "materials / straight lines; element tensors, matrix rows, right-hand side bit-identical (h_fsolver_prev); small-signal oracle on "
+         "real nonlinear runs (deviation halves with the perturbation). Found and repaired: previous flux density depended on the length "
+         "unit (0200359), every harmonic previous-solution problem with a B-H material crashed (f0b73ba), Jprev grew with the Newton passes "
+         "(ab932b1). Properties_C19_nlaxi.v holds the C05 statements of the axisymmetric Newton step."),
+ "C11": (" Extension (Properties_C05_prev.v, C11_prev_*): with a previous solution the element matrix does not depend on the new excitations "
+         "and the element right-hand side is the ordinary linear one (element level); superposition of three dependent runs on the real "
+         "solver with an identical assembled matrix."),
+ "C02": (" Extension (PolyWrite.v, Properties_C02_poly.v, 41 theorems; run with C18): everything else fmesher hands to Triangle on the "
+         "non-periodic path - point markers by name matching (drawn points keep their index, created nodes are neutral; refuted when a "
+         "property is called \"<None>\"), every sub-segment carries enc_seg of its drawn entity's boundary property and conductor (composed "
+         "with the codec round trip and, through LoadMesh.v, with what the solver ends up holding), hidden flag ignored, holes = exactly the "
+         "no-mesh labels, regions = the meshed labels with attribute rank + 1; the written .node / .edge / .ele files list Triangle's arrays "
+         "entry by entry. Harness with the real writepoly.cpp and a stub in place of Triangle: the complete triangulateio input, switch "
+         "string and written files token by token, floats bit for bit (12 900 values); fmesher --write-poly byte-identical."),
+ "C18": (" Extension (Properties_C02_poly.v, C18_poly_*): mesh size d becomes the area constraint pi (d/2)^2, never more (so an element "
+         "respecting it is no larger than the circle of that diameter), default and ForceMaxMesh cases, default mesh size heuristics, "
+         "minimum angle handed to Triangle = min(MinAngle + 3, 33.8) (that it is at least the setting is refuted above 33.8)."),
+ "C01": (" Extension (Properties_C02_poly.v, C01_poly_*): drawn point i is PSLG vertex i; switch string tokens (-pPq<angle>eAaz[Q]Ij, never Y "
+         "on this path); the three written files reproduce Triangle's output arrays; a failing Triangle writes no mesh."),
+}
+for _k, _t in EXTRA3.items():
+    CHECKS[_k]["text"] = CHECKS[_k]["text"] + _t
 PENDING = {}
 def main():
     props = [json.loads(l) for l in open(os.path.join(V, "properties.jsonl"))]
